@@ -87,4 +87,20 @@ theorem C28_tgen_modify_order : ord_modify_checks = "ascending" := by decide
 theorem C04_tgen_get_order : ord_get_steps = "ascending" := by decide
 theorem C02_tgen_get_tracks_reads : ord_get_steps = "ascending" := by decide
 theorem C03_tgen_commit_steps : ord_commit_steps = "ascending" := by decide
+/-! every extraction site was found in the source (an extractor that silently falls back to a default
+    would otherwise keep a theorem true after the code moved) -/
+theorem C20_tgen_constants_found :
+    bitDelete_found = true ∧ bitValuePointer_found = true ∧ bitDiscardEarlierVersions_found = true ∧
+    bitMergeEntry_found = true ∧ bitTxn_found = true ∧ bitFinTxn_found = true ∧
+    vlogHeaderSize_found = true ∧ maxHeaderSize_found = true ∧
+    Extracted.badgerPrefixLen = Badger.badgerPrefix.length := by decide
+theorem C28_tgen_limits_found :
+    maxKeySize_found = true ∧ finReservePad_found = true ∧ perEntryPad_found = true ∧
+    kvWriteChCapacity_found = true ∧ 0 < Extracted.kvWriteChCapacity ∧
+    Extracted.txnKeyBytes.length = Badger.txnKeyLen := by decide
+theorem C17_tgen_manifest_found :
+    manifestDeletionsRewriteThreshold_found = true ∧ manifestDeletionsRatio_found = true := by decide
+theorem C01_tgen_get_found :
+    n_break_lcget_found = true ∧ n_return_lcget_found = true ∧ n_break_dbget_found = true ∧
+    n_return_dbget_found = true ∧ n_break_lhget_found = true ∧ n_return_lhget_found = true := by decide
 end Badger
